@@ -121,7 +121,16 @@ def _scan_param(index, fi, name, nested, depth):
         f = call.func
         if isinstance(f, ast.Name):
             r = index.resolve_name(fi.module, f.id)
-            return r if isinstance(r, FunctionInfo) else None
+            if isinstance(r, FunctionInfo):
+                return r
+            if hasattr(r, "lookup"):  # a class: its constructor receives the arguments
+                ini = r.lookup("__init__")
+                return ini[1] if ini else None
+            return None
+        if isinstance(f, ast.Attribute) and f.attr == "__init__" and isinstance(f.value, ast.Call) and norm_text(f.value.func) == "super" and fi.cls is not None:
+            for base in fi.cls.mro[1:]:
+                if "__init__" in base.methods:
+                    return base.methods["__init__"]
         return None
 
     def handed_to(st):
@@ -134,6 +143,8 @@ def _scan_param(index, fi, name, nested, depth):
             if cal is None or depth >= 2:
                 continue
             params = [x.arg for x in cal.node.args.args]
+            if cal.cls is not None and params and params[0] in ("self", "cls") and not getattr(cal, "is_static", False):
+                params = params[1:]
             for i, arg in enumerate(c.args):
                 if isinstance(arg, ast.Name) and arg.id == name and i < len(params):
                     out.append((c, cal, params[i]))
@@ -205,11 +216,36 @@ def _scan_param(index, fi, name, nested, depth):
                 continue
             if state == "consumed":
                 return state, (st, f"`{norm_text(st)[:100]}` uses `{name}` after `{consumed_by[0]}` already traversed it: a one-shot iterable is exhausted by then")
+            if len(real) == 1 and _is_single_traversal(st, real[0]):
+                # one walk over the raw iterable (a `for`, a comprehension, any()/zip()/a set method taking an iterable): allowed once — from
+                # here on the iterable is spent
+                state = "consumed"
+                consumed_by[0] = norm_text(st)[:80]
+                continue
             return state, (st, f"`{norm_text(st)[:100]}` traverses `{name}` before it is materialised: a one-shot iterable is exhausted and the later "
                                "conversion yields an empty collection")
         return state, None
 
     return scan(fn.body, "raw")
+
+
+TRAVERSERS = ("any", "all", "sum", "max", "min", "zip", "enumerate", "map", "filter", "chain", "chain.from_iterable", "itertools.chain", "reversed", "iter", "next", "reduce",
+              "functools.reduce", "str.join")
+TRAVERSING_METHODS = ("isdisjoint", "issubset", "issuperset", "union", "intersection", "difference", "symmetric_difference", "update", "extend", "join", "fromkeys")
+
+
+def _is_single_traversal(st, use) -> bool:
+    """The one use of the iterable in statement `st` walks it once: loop header, comprehension source, argument of a traversing builtin / set method."""
+    if isinstance(st, ast.For) and st.iter is use:
+        return not any(isinstance(n, ast.Name) and n.id == use.id for b in st.body + st.orelse for n in ast.walk(b))
+    for n in ast.walk(st):
+        if isinstance(n, ast.comprehension) and n.iter is use:
+            return True
+        if isinstance(n, ast.Call) and any(a is use or (isinstance(a, ast.Starred) and a.value is use) for a in n.args):
+            f = norm_text(n.func)
+            if f in TRAVERSERS or (isinstance(n.func, ast.Attribute) and n.func.attr in TRAVERSING_METHODS):
+                return True
+    return False
 
 
 MATERIALISERS = ("list", "tuple", "set", "frozenset", "sorted", "ordered_set", "dict.fromkeys", "OrderedDict.fromkeys", "collections.OrderedDict.fromkeys")
